@@ -7,8 +7,11 @@ import (
 	"encoding/json"
 	"fmt"
 	"math/rand"
+	"os"
+	"path/filepath"
 	"regexp"
 	"runtime"
+	"strconv"
 	"strings"
 	"sync/atomic"
 	"time"
@@ -487,6 +490,9 @@ func runC06(r *fw.Run) {
 		c06One(r, w, texts[i], "bytes")
 	})
 	r.Count("byte_level_inputs", int64(len(texts)))
+	if r.Thorough {
+		runIDLFuzz(r, "C06", "FuzzIDLOracle", 3000000)
+	}
 }
 
 func replayC06(r *fw.Run, raw json.RawMessage) {
@@ -682,6 +688,63 @@ func runC09(r *fw.Run) {
 		}
 	}
 	run("random", in)
+	if r.Thorough {
+		runIDLFuzz(r, "C09", "FuzzIDLTotal", 3000000)
+	}
+}
+
+// runIDLFuzz drives one native fuzz target (`go test -fuzz`) for n executions and turns crashers into violations.
+func runIDLFuzz(r *fw.Run, prop, target string, n int) {
+	root := os.Getenv("VERIF_ROOT")
+	if root == "" {
+		root = "/verif"
+	}
+	pkgDir := filepath.Join(root, "harness", "internal", "eng")
+	crashDir := filepath.Join(pkgDir, "testdata", "fuzz", target)
+	os.RemoveAll(crashDir)
+	args := []string{"test", "-vet=off", "-tags", "verif"}
+	if mf := os.Getenv("VERIF_MODFILE"); mf != "" {
+		args = append(args, "-modfile="+mf)
+	}
+	if ov := os.Getenv("VERIF_OVERLAY"); ov != "" {
+		args = append(args, "-overlay", ov)
+	}
+	args = append(args, "-run", "^$", "-fuzz", "^"+target+"$", fmt.Sprintf("-fuzztime=%dx", n), "./internal/eng",
+		"-test.fuzzcachedir="+filepath.Join(r.WorkDir, "fuzzcache"))
+	out, err := goRun(filepath.Join(root, "harness"), 40*time.Minute, "go", args...)
+	execs := int64(0)
+	for _, m := range regexp.MustCompile(`execs: (\d+)`).FindAllStringSubmatch(out, -1) {
+		if v, e := strconv.ParseInt(m[1], 10, 64); e == nil && v > execs {
+			execs = v
+		}
+	}
+	r.Count("fuzz_executions", execs)
+	files, _ := filepath.Glob(filepath.Join(crashDir, "*"))
+	for _, f := range files {
+		b, _ := os.ReadFile(f)
+		input := string(b)
+		if m := regexp.MustCompile(`(?s)string\((".*")\)`).FindStringSubmatch(input); m != nil {
+			if u, e := strconv.Unquote(m[1]); e == nil {
+				input = u
+			}
+		}
+		class := "fuzz-crasher"
+		if m := regexp.MustCompile(`(C0[69] [a-z-]+[^:\n]*)`).FindStringSubmatch(out); m != nil {
+			class = "fuzz " + m[1]
+		} else if strings.Contains(out, "panic:") {
+			class = "fuzz panic"
+		}
+		r.Violation(class, "coverage-guided fuzzing ("+target+") found an input:\n"+clip(out, 1500), idlInput{Text: input, Op: "fuzz"})
+		os.Remove(f)
+	}
+	os.RemoveAll(filepath.Join(pkgDir, "testdata"))
+	if err != nil && len(files) == 0 {
+		if strings.Contains(out, "FAIL") {
+			r.Violation("fuzz-failure-without-crasher", "go test -fuzz failed without leaving a crasher file:\n"+clip(out, 2000), idlInput{Op: "fuzz"})
+		} else {
+			r.Inconclusive("go test -fuzz %s: %v: %s", target, err, clip(out, 300))
+		}
+	}
 }
 
 func replayC09(r *fw.Run, raw json.RawMessage) {
